@@ -11,7 +11,10 @@ SPEC = {
             "{0,1,2,3}^4 (thorough: every tuple once, kinds/alpha-mode pairs in rotation, plus self blits; quick: 1/64 random sample); "
             "dashed h/v lines: ends in [-3,len+3], row/column in [-1,other], dash in {0,1,2,3,5,-2} on lengths {0,1,2,3,5,8}; draw_line all in-canvas endpoint pairs of 13x11, 1x1, 1x9, 9x1, 4x7 (+16x16, 7x19 thorough) and sampled outside ends; "
             "direct pixel access on every coordinate in [-3,size+3]^2 plus +-2^31, +-2^63; random: canvases to 64x64, "
-            "coordinates up to +-2^31, all 8 formats, op sequences of length <= 30 with the shadow carried along. "
+            "coordinates up to +-2^31, all 8 formats, op sequences of length <= 30 with the shadow carried along, including ACROSS "
+            "set_channel_width / set_has_alpha / copy of destination and sources (model channel maximum = 2^width-1 afterwards; exact "
+            "per-pixel prediction of widen/narrow/alpha add/drop/mirror/invert) and read_pixel probes; format stage: every format x "
+            "every target width on canvases {0,1,2,3,5}^2 followed by invert / alpha toggle / blend_blit / blit-from / mirror. "
             "distinct_nontrivial = distinct (operation, clip shape [dst-negative, src-negative, dst-overflow, src-overflow]) and "
             "(operation, channel width, alpha mode, self/other source) classes plus line/text/identity/pixel-access shape classes.",
     "level_text": "Every explored execution of the real drawing code is compared pixel-for-pixel against a shadow model that never "
@@ -30,6 +33,8 @@ SPEC = {
         "draw_text:w8:bgblend", "draw_text:shape:glyphs:nl*", "draw_horizontal_line:fmt:*", "draw_vertical_line:fmt:*", "draw_horizontal_line:inside:dashed", "draw_vertical_line:partly-outside:dashed", "draw_line:incanvas:steep*",
         "draw_line:incanvas:shallow*", "draw_line:incanvas:point*", "draw_line:one-end-outside:*", "draw_line:both-ends-outside:*",
         "reverse_horizontal:fmt:*", "reverse_vertical:fmt:*", "invert:fmt:*", "resize_blit:fmt:*",
+        "set_channel_width:8->16", "set_channel_width:64->8", "set_channel_width:16->64", "set_has_alpha:add:w64", "set_has_alpha:drop:w8",
+        "set_has_alpha:add:w16", "copy:w16", "copy:w64", "read_probe:16n", "read_probe:64n", "invert:fmt:16", "blend_blit:fmt:32",
         "identity:widen:8->64", "identity:64a:*", "identity:8n:empty", "pixel:oob:read_pixel:*", "pixel:oob:write_pixel32:*",
         "pixel:in:write_pixel:64a", "mask_blit_img:mask-too-small",
     ],
